@@ -437,6 +437,9 @@ as numpy.loadtxt will not work as expected."""
                   dtype=[(np.str_('<;'), '<i8'), (np.str_(';<'), '<i8')])
 
         """
+        if not self.flags["C_CONTIGUOUS"]:
+            # a strided view (e.g. ``poly.T``): re-wrapping the raw buffer would ignore the strides
+            return numpy.ndarray.view(self, numpy.ndarray)
         return numpy.ndarray(
             shape=self.shape,
             dtype=[(key, self.dtype) for key in self.keys],
